@@ -20,7 +20,7 @@ EXPLANATION = (
     "P[i,j]*perm(W) == W[i,j]*perm(W minus row i, column j) (perm = Leibniz expansion, the property's own oracle), P == 0 on busy rows/columns, and the code's own allclose asserts as exact "
     "row/column-sum identities. This is complete per shape and bounded in shape, hence 'other'."
 )
-BOUNDS = {"quick": "all shapes with N<=2 plus-ensembles, every 5th shape with N=3", "thorough": "all shapes with N<=3, every 3rd with N=4 (0/1 weights: all of those; symbolic wire-fencing / mixed weights: only states with at most three idle rows -- larger idle blocks need 4x4 / 5x5 symbolic permanent identities, beyond the solver within minutes: not decided)"}
+BOUNDS = {"quick": "all shapes with N<=2 plus-ensembles, every 5th shape with N=3", "thorough": "all shapes with N<=3, every 3rd with N=4 (0/1 weights: all of those; symbolic wire-fencing / mixed weights: only states with at most two idle rows -- larger idle blocks exceed minutes / 10 GB for some shapes: not decided)"}
 
 
 def _has_matching(rows, idle):
@@ -60,9 +60,10 @@ def jobs(tier):
     for N, stride in plan:
         for k, (kind, rows, locks) in enumerate(shapes(N)):
             if k % stride == 0:
-                if N >= 4 and kind != "sh" and sum(1 for x in locks if not x) >= 4:
-                    # N = 4 states with four or five idle rows and symbolic wire-fencing weights need 4x4 / 5x5 symbolic permanent identities:
-                    # up to minutes and > 10 GB per shape (profiled: timeouts at 120 s) -- NOT decided, stated in BOUNDS
+                if N >= 4 and kind != "sh" and sum(1 for x in locks if not x) >= 3:
+                    # N = 4 states with three or more idle rows and symbolic wire-fencing weights: the exploration of the real code forks on
+                    # comparisons between symbolic weights and the 3x3..5x5 symbolic permanent identities take minutes and > 10 GB for some
+                    # shapes (profiled: one 3-idle mixed shape did not finish in 900 s) -- NOT decided, stated in BOUNDS
                     continue
                 all_shapes.append((N, kind, rows, locks))
     nchunks = 28
